@@ -37,7 +37,9 @@ func findMatches(insts []bytecode.SearchInstruction, all bool, skip int, take in
 		currentState := CreateState(filename, reader, fileOffset, lineNumber, columnNumber)
 		for currentState.status == INPROCESS {
 			inst := insts[currentState.programCounter]
+			verifPC0 := currentState.programCounter
 			currentState = matchInstruction(inst, currentState)
+			verifStep(verifPC0, inst, currentState)
 			// fmt.Printf("PC: %d INST: %+v STATE: %+v\n", currentState.programCounter, inst, currentState)
 			if currentState.status == INPROCESS && currentState.programCounter >= len(insts) {
 				currentState.SUCCESS()
